@@ -105,6 +105,32 @@ def python_sites() -> list[tuple[str, str, str, str]]:
 	return out
 
 
+def python_site_functions() -> set[tuple[str, str]]:
+	"""→ {(name of the enclosing function, helper)} for every `BlockParser.<helper>(…)` call in rogw/tranp/**/*.py (block.py itself
+	excluded): the stable key of a production call site - line numbers move, function names do not. The harness asks this set
+	whether a caller it drives (on_throw, on_dict_comp, is_initializer_call, the PatternParser helpers) still goes through the helper."""
+	out: set[tuple[str, str]] = set()
+	root = os.path.join(REPO, 'rogw')
+	for dirpath, _, files in sorted(os.walk(root)):
+		for fn in sorted(files):
+			if not fn.endswith('.py'):
+				continue
+			path = os.path.join(dirpath, fn)
+			if os.path.relpath(path, REPO) == os.path.join('rogw', 'tranp', 'view', 'helper', 'block.py'):
+				continue
+			with open(path, encoding='utf-8') as f:
+				src = f.read()
+			if 'BlockParser' not in src:
+				continue
+			for func in ast.walk(ast.parse(src)):
+				if not isinstance(func, (ast.FunctionDef, ast.AsyncFunctionDef)):
+					continue
+				for node in ast.walk(func):
+					if isinstance(node, ast.Call) and isinstance(node.func, ast.Attribute) and isinstance(node.func.value, ast.Name) and node.func.value.id == 'BlockParser':
+						out.add((func.name, node.func.attr))
+	return out
+
+
 CALL_RE = re.compile(r"\b(break_last_block|break_separator|parse_bracket|parse_pair|parse_to_formatter)\s*\(")
 FULL_RE = re.compile(r"\b(break_last_block|break_separator)\s*\(\s*([A-Za-z_][\w.\[\]]*)\s*,\s*'([^'\\]*)'\s*\)")
 
